@@ -26,7 +26,7 @@ VARIABLES q,      \* operational: client id |-> sequence of queued copies [tag, 
 ovars == <<q, npid>>
 allvars == <<bvars, q, npid>>
 
-Conf == [mode |-> ModeC, qq0 |-> QQ0, maxinflight |-> 100, sessexpiry |-> 100]
+Conf == [mode |-> ModeC, qq0 |-> QQ0, maxinflight |-> 100, sessexpiry |-> 100, srvrecvmax |-> 100, srvaliasmax |-> 10, srvmaxpkt |-> 1000000]
 
 Numbering == CHOOSE f \in [CIDs -> 1..Cardinality(CIDs)] : \A a, b \in CIDs : a # b => f[a] # f[b]
 N(c) == Numbering[c]
@@ -42,7 +42,8 @@ OInit == /\ cfg = Conf
          /\ ctr = [pub |-> 0, oid |-> 0]
          /\ conn = [k \in 1..Cardinality(CIDs) |->
                      LET c == CHOOSE d \in CIDs : Numbering[d] = k IN
-                     [cid |-> c, ver |-> VerOf(c), st |-> "up", clean |-> TRUE, recvmax |-> 0, expiry |-> 0, sawfresh |-> FALSE]]
+                     [cid |-> c, ver |-> VerOf(c), st |-> "up", clean |-> TRUE, recvmax |-> 0, expiry |-> 0, sawfresh |-> FALSE,
+                      maxpkt |-> 0, aliasmax |-> 0, open |-> 0, aliasin |-> <<>>, dying |-> {}, disc |-> FALSE]]
          /\ sess = [c \in CIDs |-> [online |-> Numbering[c], ver |-> VerOf(c)]]
          /\ q = [c \in CIDs |-> <<>>]
          /\ npid = [c \in CIDs |-> 1]
@@ -86,7 +87,8 @@ OpPublish(src, m) ==
 \* environment + broker steps.  Connections: client c uses connection number Num(c) once (no reconnects here).
 DoConnect(c, ver) ==
   /\ N(c) \notin DOMAIN conn
-  /\ LET cn == Put(conn, N(c), [cid |-> c, ver |-> ver, st |-> "up", clean |-> TRUE, recvmax |-> 0, expiry |-> 0, sawfresh |-> FALSE]) IN conn' = cn
+  /\ LET cn == Put(conn, N(c), [cid |-> c, ver |-> ver, st |-> "up", clean |-> TRUE, recvmax |-> 0, expiry |-> 0, sawfresh |-> FALSE,
+                      maxpkt |-> 0, aliasmax |-> 0, open |-> 0, aliasin |-> <<>>, dying |-> {}, disc |-> FALSE]) IN conn' = cn
   /\ sess' = Put(sess, c, [online |-> N(c), ver |-> ver])
   /\ UNCHANGED <<cfg, subs, owed, gowed, ctl, ret, unack, infl, last, ctr, q, npid>>
 
@@ -110,7 +112,7 @@ DoUnsubscribe(c, f) ==
 
 DoPublish(c, t, qos, retain, empty) ==
   LET m == [topic |-> t.topic, lv |-> t.lv, sys |-> t.sys, qos |-> qos, retain |-> retain, empty |-> empty,
-            tag |-> ctr.pub + 1, pid |-> 0, dup |-> FALSE] IN
+            tag |-> ctr.pub + 1, pid |-> 0, dup |-> FALSE, alias |-> 0, notopic |-> FALSE, size |-> 10, fsize |-> 10] IN
   /\ Up(N(c))
   /\ ctr.pub < MaxPubs
   /\ Publication(c, m) /\ RetainUpdate(m)
@@ -119,7 +121,7 @@ DoPublish(c, t, qos, retain, empty) ==
 
 DoApiPublish(t, qos, retain) ==
   LET m == [topic |-> t.topic, lv |-> t.lv, sys |-> t.sys, qos |-> qos, retain |-> retain, empty |-> FALSE,
-            tag |-> ctr.pub + 1, pid |-> 0, dup |-> FALSE] IN
+            tag |-> ctr.pub + 1, pid |-> 0, dup |-> FALSE, alias |-> 0, notopic |-> FALSE, size |-> 10, fsize |-> 10] IN
   /\ ctr.pub < MaxPubs
   /\ Publication(API, m)
   /\ q' \in OpPublish(API, m)
@@ -129,7 +131,7 @@ DoApiPublish(t, qos, retain) ==
 HeadPkt(c) == LET h == Head(q[c]) IN
   [topic |-> h.topic, tag |-> h.tag, qos |-> h.qos, retain |-> h.retain, dup |-> FALSE,
    pid |-> IF h.qos = 0 THEN 0 ELSE npid[c],
-   ids |-> IF conn[N(c)].ver = 5 THEN h.ids ELSE <<>>]
+   ids |-> IF conn[N(c)].ver = 5 THEN h.ids ELSE <<>>, size |-> 10, alias |-> 0]
 
 \* refinement mapping: the obligation(s) the head copy of c's queue is meant to discharge
 TargetOwed(c) == LET h == Head(q[c]) IN
